@@ -196,6 +196,18 @@ Proof.
   reflexivity.
 Qed.
 
+(** [Quantity.__pow__] with a scalar exponent: multiplicative units are raised to the exponent,
+    offset units are refused (except for the exponents 1 and 0, which return self / dimensionless) *)
+Lemma pow_units_spec env u p :
+  p ≠ q1 → qz p = false →
+  pow_units env u p = if is_mult env u then Ok (uc_pow u p) else Err EOffset.
+Proof.
+  intros H1 H0. unfold pow_units. rewrite bool_decide_eq_false_2 by exact H1. rewrite H0.
+  destruct (is_mult env u); reflexivity.
+Qed.
+Lemma pow_units_trivial env u : pow_units env u q1 = Ok u ∧ pow_units env u qc0 = Ok ∅.
+Proof. split; reflexivity. Qed.
+
 (** * 4. [convert_arg]: bare numbers are accepted iff the target is dimensionless or the
     number is zero / NaN; incompatible quantities are DimensionalityErrors *)
 Lemma convert_bare_dimensioned env t zn :
